@@ -223,10 +223,22 @@ fn main() {
     if which.is_empty() || which.contains(&"t204".to_string()) { println!("t204 {}", probe(&t_m204()) == probe(&t_b204()) && format!("{:?}", t_m204()) == format!("{:?}", t_b204())); }
     if which.is_empty() || which.contains(&"t205".to_string()) { println!("t205 {}", probe(&t_m205()) == probe(&t_b205()) && format!("{:?}", t_m205()) == format!("{:?}", t_b205())); }
     if which.is_empty() || which.contains(&"t206".to_string()) { println!("t206 {}", probe(&t_m206()) == probe(&t_b206()) && format!("{:?}", t_m206()) == format!("{:?}", t_b206())); }
+    if which.is_empty() || which.contains(&"t207".to_string()) { println!("t207 {}", probe(&t_m207()) == probe(&t_b207()) && format!("{:?}", t_m207()) == format!("{:?}", t_b207())); }
+    if which.is_empty() || which.contains(&"t208".to_string()) { println!("t208 {}", probe(&t_m208()) == probe(&t_b208()) && format!("{:?}", t_m208()) == format!("{:?}", t_b208())); }
+    if which.is_empty() || which.contains(&"t209".to_string()) { println!("t209 {}", probe(&t_m209()) == probe(&t_b209()) && format!("{:?}", t_m209()) == format!("{:?}", t_b209())); }
+    if which.is_empty() || which.contains(&"t210".to_string()) { println!("t210 {}", probe(&t_m210()) == probe(&t_b210()) && format!("{:?}", t_m210()) == format!("{:?}", t_b210())); }
+    if which.is_empty() || which.contains(&"t211".to_string()) { println!("t211 {}", probe(&t_m211()) == probe(&t_b211()) && format!("{:?}", t_m211()) == format!("{:?}", t_b211())); }
+    if which.is_empty() || which.contains(&"t212".to_string()) { println!("t212 {}", probe(&t_m212()) == probe(&t_b212()) && format!("{:?}", t_m212()) == format!("{:?}", t_b212())); }
+    if which.is_empty() || which.contains(&"t213".to_string()) { println!("t213 {}", probe(&t_m213()) == probe(&t_b213()) && format!("{:?}", t_m213()) == format!("{:?}", t_b213())); }
+    if which.is_empty() || which.contains(&"t214".to_string()) { println!("t214 {}", probe(&t_m214()) == probe(&t_b214()) && format!("{:?}", t_m214()) == format!("{:?}", t_b214())); }
     if which.is_empty() || which.contains(&"g0".to_string()) { println!("g0 {}", probe(&g_m0()) == probe(&g_b0())); }
     if which.is_empty() || which.contains(&"g1".to_string()) { println!("g1 {}", probe(&g_m1()) == probe(&g_b1())); }
     if which.is_empty() || which.contains(&"g2".to_string()) { println!("g2 {}", probe(&g_m2()) == probe(&g_b2())); }
     if which.is_empty() || which.contains(&"g3".to_string()) { println!("g3 {}", probe(&g_m3()) == probe(&g_b3())); }
+    if which.is_empty() || which.contains(&"g4".to_string()) { println!("g4 {}", probe(&g_m4()) == probe(&g_b4())); }
+    if which.is_empty() || which.contains(&"g5".to_string()) { println!("g5 {}", probe(&g_m5()) == probe(&g_b5())); }
+    if which.is_empty() || which.contains(&"g6".to_string()) { println!("g6 {}", probe(&g_m6()) == probe(&g_b6())); }
+    if which.is_empty() || which.contains(&"g7".to_string()) { println!("g7 {}", probe(&g_m7()) == probe(&g_b7())); }
     if which.is_empty() || which.contains(&"a0".to_string()) { println!("a0 {}", drive(&mut a_m0()) == drive(&mut a_b0())); }
     if which.is_empty() || which.contains(&"a1".to_string()) { println!("a1 {}", drive(&mut a_m1()) == drive(&mut a_b1())); }
     if which.is_empty() || which.contains(&"a2".to_string()) { println!("a2 {}", drive(&mut a_m2()) == drive(&mut a_b2())); }
